@@ -1,6 +1,7 @@
 import PybropsModel.J
 import PybropsModel.Model.Prng
 import PybropsModel.Generated.C08Deps
+import PybropsModel.Generated.C08Static
 open Lean
 
 /-!
@@ -31,6 +32,13 @@ def parseArg (j : Json) : J.R RngArg :=
     | _ => J.fail s!"bad rng argument {j.compress}"
   | _ => J.fail s!"bad rng argument {j.compress}"
 
+def rowFor (name : String) : J.R (Nat × Row) :=
+  match findRow name with
+  | none => J.fail s!"component {name} is not in the measured table"
+  | some x => pure x
+
+def clsOf (i : Nat) (r : Row) : Cls Nat Nat := toyCls (i + 1) r.ctorDeps r.deps r.cached
+
 def parseOp (j : Json) : J.R (Op Nat Nat) := do
   match ← J.fieldOpt j "seed" J.nat with
   | some s => pure (.seed s)
@@ -38,13 +46,32 @@ def parseOp (j : Json) : J.R (Op Nat Nat) := do
     match ← J.fieldOpt j "spawn" J.nat with
     | some n => pure (.spawn n)
     | none =>
-      let name ← J.field j "c" J.str
-      let arg ← J.field j "rng" parseArg
-      match findRow name with
-      | none => J.fail s!"component {name} is not in the measured table"
-      | some (i, r) =>
+      match ← J.fieldOpt j "new" J.str with
+      | some name =>
+        let arg ← J.field j "rng" parseArg
+        let (i, r) ← rowFor name
         if !r.accepts && !arg.isGlob then J.fail s!"component {name} has no rng parameter" else
-        pure (.call (toyComp (i + 1) r.deps) arg)
+        pure (.new (clsOf i r) arg)
+      | none =>
+        match ← J.fieldOpt j "use" J.nat with
+        | some k =>
+          let name ← J.field j "c" J.str
+          let (i, r) ← rowFor name
+          pure (.use (clsOf i r) k)
+        | none =>
+          match ← J.fieldOpt j "setrng" J.nat with
+          | some k =>
+            let name ← J.field j "c" J.str
+            let arg ← J.field j "rng" parseArg
+            let (i, r) ← rowFor name
+            if !r.accepts && !arg.isGlob then J.fail s!"component {name} has no rng parameter" else
+            pure (.setrng (clsOf i r) k arg)
+          | none =>
+            let name ← J.field j "c" J.str
+            let arg ← J.field j "rng" parseArg
+            let (i, r) ← rowFor name
+            if !r.accepts && !arg.isGlob then J.fail s!"component {name} has no rng parameter" else
+            pure (.call (toyComp (i + 1) r.deps) arg)
 
 /-- states after each step (stops at the first failing step) -/
 def trace (P : Prim Nat) : List (Op Nat Nat) → St Nat → List (Option (Out Nat Nat × St Nat))
@@ -60,25 +87,43 @@ def touched (a b : St Nat) : List String :=
   ++ ((List.range (max a.ext.length b.ext.length)).filter (fun i => a.ext[i]? != b.ext[i]?)).map (fun i => s!"ext{i}")
   ++ ((List.range (max a.spawned.length b.spawned.length)).filter (fun i => a.spawned[i]? != b.spawned[i]?)).map (fun i => s!"spawned{i}")
 
+/-- `setup` (optional) is run before `prog`.  Without `share` both executions run `setup ++ prog`
+    from two states that differ in `py`, `np`, `os`.  With `share` the second execution continues
+    from the FINAL state of the first one (same long-lived objects, their private state as the first
+    execution left it) with different `py`, `np`, `os`, and runs `prog` only. -/
 def opPredict : J.Op := fun j => do
+  let setup ← J.fieldD j "setup" (J.list parseOp) []
   let prog ← J.field j "prog" (J.list parseOp)
   let nExt ← J.fieldD j "n_ext" J.nat 0
+  let share ← J.fieldD j "share" J.bool false
   let ext := (List.range nExt).map (fun i => mix i 77)
-  let sA : St Nat := ⟨1001, 2002, 3003, ext, []⟩
-  let sB : St Nat := ⟨4004, 5005, 6006, ext, []⟩
-  let tA := trace toyPrim prog sA
-  let tB := trace toyPrim prog sB
+  let sA : St Nat := ⟨1001, 2002, 3003, ext, [], []⟩
+  let full := setup ++ prog
+  let tA := trace toyPrim full sA
+  let finA : St Nat := ((tA.getLast?).bind (fun r => r.map Prod.snd)).getD sA
+  let sB : St Nat := if share then { finA with py := 4004, np := 5005, os := 6006 } else ⟨4004, 5005, 6006, ext, [], []⟩
+  let tB := trace toyPrim (if share then prog else full) sB
   let befA := sA :: tA.filterMap (fun r => r.map Prod.snd)
-  let rows := (tA.zip tB).zipIdx.map (fun p =>
+  let pad : List (Option (Out Nat Nat × St Nat)) := if share then setup.map (fun _ => none) else []
+  let tB' := pad ++ tB
+  let rows := (tA.zip tB').zipIdx.map (fun p =>
+    let before := befA.getD p.2 sA
     match p.1.1, p.1.2 with
     | some (oa, a), some (ob, b) =>
-      let before := befA.getD p.2 sA
       J.obj [("ok", J.ofBool true), ("touched", J.ofList J.ofStr (touched before a)),
              ("eq_out", J.ofBool (oa == ob)), ("eq_py", J.ofBool (a.py == b.py)),
              ("eq_np", J.ofBool (a.np == b.np)),
              ("eq_gens", J.ofBool (a.ext == b.ext && a.spawned == b.spawned))]
+    | some (_, a), none =>
+      if share && p.2 < setup.length then
+        J.obj [("ok", J.ofBool true), ("touched", J.ofList J.ofStr (touched before a)),
+               ("eq_out", J.ofBool false), ("eq_py", J.ofBool false), ("eq_np", J.ofBool false),
+               ("eq_gens", J.ofBool false)]
+      else J.obj [("ok", J.ofBool false)]
     | _, _ => J.obj [("ok", J.ofBool false)])
-  pure <| J.obj [("steps", .arr rows.toArray), ("complete", J.ofBool (tA.length == prog.length && tA.all Option.isSome))]
+  pure <| J.obj [("steps", .arr rows.toArray),
+    ("complete", J.ofBool (tA.length == full.length && tA.all Option.isSome
+        && tB.length == (if share then prog.length else full.length) && tB.all Option.isSome))]
 
 def opSpecRepro : J.Op := fun j => do
   let a ← J.field j "a" (J.list J.str)
@@ -109,14 +154,75 @@ def opTable : J.Op := fun _ => do
   pure <| J.obj [
     ("rows", J.ofList (fun (r : Row) => J.obj [("name", J.ofStr r.name), ("accepts", J.ofBool r.accepts),
         ("deps", ofDeps r.deps), ("osSites", J.ofList J.ofStr r.osSites), ("leakSites", J.ofList J.ofStr r.leakSites),
+        ("ctorDeps", ofDeps r.ctorDeps), ("cached", J.ofBool r.cached),
+        ("cached_known", J.ofBool (r.cachedKnown C08Deps.knownCached)),
         ("consistent", J.ofBool r.consistent),
         ("unseeded_known", J.ofBool (r.unseededKnown C08Deps.knownOsSites)),
         ("leaks_known", J.ofBool (r.leaksKnown C08Deps.knownLeakSites))]) C08Deps.table),
     ("knownOsSites", J.ofList J.ofStr C08Deps.knownOsSites),
     ("knownLeakSites", J.ofList J.ofStr C08Deps.knownLeakSites)]
 
+def opStatic : J.Op := fun _ => do
+  pure <| J.obj [
+    ("sites", J.ofList (fun (x : Site) => J.obj [("module", J.ofStr x.module), ("func", J.ofStr x.func),
+        ("kind", J.ofStr x.kind), ("what", J.ofStr x.what), ("count", J.ofNat x.count),
+        ("reached", J.ofList J.ofNat x.reached),
+        ("covered", J.ofBool (x.covered C08Deps.table C08Static.allow))]) C08Static.sites),
+    ("allow", J.ofList (fun (a : String × String) => J.ofList J.ofStr [a.1, a.2]) C08Static.allow)]
+
+/-! `c08.prim_run`: the literal model of `seed()` / `spawn()` (Model/Prng `seed`, `spawnGo`) executed on the
+    REAL primitives: generator states are digests (strings), the four primitives are finite tables recorded
+    by the harness from the standard library (`random.seed`, `random.randint`, `numpy.random.seed`,
+    `Generator(BitGenerator(v))`).  The harness compares the states the model computes with those the
+    real `prng.seed` / `prng.spawn` leave behind. -/
+def lookup1 (t : List (String × String)) (k : String) : String :=
+  ((t.find? (fun p => p.1 == k)).map (·.2)).getD ("?" ++ k)
+
+def opPrimRun : J.Op := fun j => do
+  let pair : Json → J.R (String × String) := fun x => do
+    match x with
+    | .arr a => match a.toList with
+      | [k, v] => do pure (← J.str k, ← J.str v)
+      | _ => J.fail "pair expected"
+    | _ => J.fail "pair expected"
+  let triple : Json → J.R (String × Nat × String) := fun x => do
+    match x with
+    | .arr a => match a.toList with
+      | [k, v, n] => do pure (← J.str k, ← J.nat v, ← J.str n)
+      | _ => J.fail "triple expected"
+    | _ => J.fail "triple expected"
+  let pySeedT ← J.field j "py_seed" (J.list pair)
+  let pyDrawT ← J.field j "py_draw" (J.list triple)
+  let npSeedT ← J.field j "np_seed" (J.list pair)
+  let genSeedT ← J.field j "gen_seed" (J.list pair)
+  let P : Prim String :=
+    { pySeed := fun s => lookup1 pySeedT (toString s),
+      pyDraw := fun x => match pyDrawT.find? (fun p => p.1 == x) with
+        | some p => (p.2.1, p.2.2)
+        | none => (0, "?" ++ x),
+      npSeed := fun v => lookup1 npSeedT (toString v),
+      genSeed := fun v => lookup1 genSeedT (toString v) }
+  let py0 ← J.field j "py" J.str
+  let np0 ← J.field j "np" J.str
+  let prog ← J.field j "ops" (J.list (fun o => do
+    match ← J.fieldOpt o "seed" J.nat with
+    | some s => pure (Op.seed s : Op String Nat)
+    | none => do let n ← J.field o "spawn" J.nat; pure (Op.spawn n)))
+  let rec go (ops : List (Op String Nat)) (st : St String) (acc : List Json) : List Json :=
+    match ops with
+    | [] => acc.reverse
+    | op :: rest =>
+      match step P op st with
+      | none => acc.reverse
+      | some (o, st') =>
+        let gens := match o with
+          | .gens g => g
+          | _ => []
+        go rest st' (J.obj [("py", J.ofStr st'.py), ("np", J.ofStr st'.np), ("gens", J.ofList J.ofStr gens)] :: acc)
+  pure <| J.obj [("steps", .arr (go prog ⟨py0, np0, "os", [], [], []⟩ []).toArray)]
+
 def ops : List (String × J.Op) :=
   [("c08.predict", opPredict), ("c08.spec_repro", opSpecRepro), ("c08.spec_isolated", opSpecIsolated),
-   ("c08.table", opTable)]
+   ("c08.table", opTable), ("c08.static", opStatic), ("c08.prim_run", opPrimRun)]
 
 end Drv.C08
